@@ -44,7 +44,7 @@ static void check_f2x11_word(pbt::Ctx& c, uint32_t p) {
 	if (normals == 3 && uf_field(p, 0) != uf_field(p, 1) && (uf_field(p, 0) >> 1) != uf_field(p, 2) && (uf_field(p, 1) >> 1) != uf_field(p, 2)) c.nontrivial();
 }
 static void prop_f2x11_words(pbt::Ctx& c) { check_f2x11_word(c, (uint32_t)c.draw(1ULL << 32)); }
-PBT_SWEEP("F2x11_1x10/words", prop_f2x11_words, 1ULL << 32, 256, 4, "packed word -> unpackF2x11_1x10 -> every component against the GL small-float value of its code (denormals, Inf, NaN); finite codes re-pack to themselves; unpack(pack(unpack)) = unpack; non-trivial = three non-zero finite codes with pairwise different values");
+PBT_SWEEP("F2x11_1x10/words", prop_f2x11_words, 1ULL << 32, 256, 1, "packed word -> unpackF2x11_1x10 -> every component against the GL small-float value of its code (denormals, Inf, NaN); finite codes re-pack to themselves; unpack(pack(unpack)) = unpack; non-trivial = three non-zero finite codes with pairwise different values");
 static void prop_f2x11_fields(pbt::Ctx& c) {
 	uint64_t idx = c.draw(3ULL * (2048 + 2048 + 1024));
 	int fill = (int)(idx % 3); idx /= 3;
